@@ -28,21 +28,47 @@ fn wire_of_record(r: &ResourceRecord, compressed: bool) -> Result<Vec<u8>, Fail>
     if compressed { ser_compressed(&p) } else { ser_plain(&p) }
 }
 
-/// a == b must imply equal hashes, equal observation and equal bytes
+/// `copy` = true (b is a clone / owned copy of a): they must be equal, hash equally, observe equally and serialise to the
+/// same bytes. `copy` = false (two values obtained along different paths): only "equal implies equal hashes" is claimed.
 fn same_record(a: &ResourceRecord, b: &ResourceRecord, what: &str) -> Result<(), Fail> {
+    same_record_as(a, b, what, true)
+}
+
+fn same_record_as(a: &ResourceRecord, b: &ResourceRecord, what: &str, copy: bool) -> Result<(), Fail> {
     let eq = lib("ResourceRecord::eq", || a == b)?;
-    ensure!(eq, "c16:not-equal", "{}: records that should be equal compare different: {:?} vs {:?}", what, observe_record(a), observe_record(b));
-    ensure!(h(a) == h(b), "c16:hash-record", "{}: equal records hash differently", what);
-    ensure!(lib("RData::eq", || a.rdata == b.rdata)?, "c16:not-equal", "{}: rdata differ", what);
-    ensure!(h(&a.rdata) == h(&b.rdata), "c16:hash-rdata", "{}: equal rdata hash differently", what);
-    ensure!(lib("Name::eq", || a.name == b.name)?, "c16:not-equal", "{}: owner names differ", what);
-    ensure!(h(&a.name) == h(&b.name), "c16:hash-name", "{}: equal names hash differently", what);
-    for (x, y) in a.name.get_labels().iter().zip(b.name.get_labels()) {
-        ensure!(x == y && h(x) == h(y), "c16:hash-label", "{}: labels differ or hash differently", what);
+    if copy {
+        ensure!(eq, "c16:not-equal", "{}: records that should be equal compare different: {:?} vs {:?}", what, observe_record(a), observe_record(b));
     }
-    ensure!(observe_record(a) == observe_record(b), "c16:observation", "{}: {:?} vs {:?}", what, observe_record(a), observe_record(b));
-    for compressed in [false, true] {
-        ensure!(wire_of_record(a, compressed)? == wire_of_record(b, compressed)?, "c16:bytes", "{}: equal records serialise differently (compressed={})", what, compressed);
+    if eq {
+        ensure!(h(a) == h(b), "c16:hash-record", "{}: equal records hash differently", what);
+    }
+    let rd_eq = lib("RData::eq", || a.rdata == b.rdata)?;
+    if copy {
+        ensure!(rd_eq, "c16:not-equal", "{}: rdata differ", what);
+    }
+    if rd_eq {
+        ensure!(h(&a.rdata) == h(&b.rdata), "c16:hash-rdata", "{}: equal rdata hash differently", what);
+    }
+    let n_eq = lib("Name::eq", || a.name == b.name)?;
+    if copy {
+        ensure!(n_eq, "c16:not-equal", "{}: owner names differ", what);
+    }
+    if n_eq {
+        ensure!(h(&a.name) == h(&b.name), "c16:hash-name", "{}: equal names hash differently", what);
+    }
+    for (x, y) in a.name.get_labels().iter().zip(b.name.get_labels()) {
+        if copy {
+            ensure!(x == y, "c16:not-equal", "{}: labels differ", what);
+        }
+        if x == y {
+            ensure!(h(x) == h(y), "c16:hash-label", "{}: equal labels hash differently", what);
+        }
+    }
+    if copy {
+        ensure!(observe_record(a) == observe_record(b), "c16:observation", "{}: {:?} vs {:?}", what, observe_record(a), observe_record(b));
+        for compressed in [false, true] {
+            ensure!(wire_of_record(a, compressed)? == wire_of_record(b, compressed)?, "c16:bytes", "{}: a copy serialises differently from its original (compressed={})", what, compressed);
+        }
     }
     Ok(())
 }
@@ -86,10 +112,14 @@ fn check_copies(s: &gen::Sharing, case: &mut Case) -> Result<(), Fail> {
     let u = ser_plain(base)?;
     let c = ser_compressed(base)?;
     // values borrowed from two different receive buffers
-    let pu = parse(&u)?.map_err(|e| Fail::new("c16:unparseable", format!("{:?}", e)))?;
-    let pc = parse(&c)?.map_err(|e| Fail::new("c16:unparseable", format!("{:?}", e)))?;
+    // (whether the library reads its own output back is C02's / C03's business: no claim here if it does not)
+    let (Ok(pu), Ok(pc)) = (parse(&u)?, parse(&c)?) else {
+        case.class("own-output-not-parsed:no-claim");
+        return Ok(());
+    };
     for (name, p) in [("built", base), ("parsed-plain", &pu), ("parsed-compressed", &pc)] {
-        // clone and owned rebuild serialise identically
+        // clone and owned rebuild serialise like the value they were made from
+        let (u, c) = (ser_plain(p)?, ser_compressed(p)?);
         let cl = lib("Packet::clone", || p.clone())?;
         ensure!(ser_plain(&cl)? == u && ser_compressed(&cl)? == c, "c16:clone-bytes", "{}: clone of the packet serialises differently", name);
         let ow = lib("into_owned", || rebuild_owned(p))?;
@@ -115,10 +145,13 @@ fn check_copies(s: &gen::Sharing, case: &mut Case) -> Result<(), Fail> {
     // equal values built along different paths
     let secs = |p: &Packet| -> Vec<ResourceRecord<'static>> { p.answers.iter().chain(&p.name_servers).chain(&p.additional_records).cloned().map(|r| r.into_owned()).collect() };
     let (rb, ru, rc) = (secs(base), secs(&pu), secs(&pc));
-    ensure!(rb.len() == ru.len() && ru.len() == rc.len(), "c16:count", "record counts differ between paths");
+    if !(rb.len() == ru.len() && ru.len() == rc.len()) {
+        case.class("record-counts-differ-between-paths:no-claim");
+        return Ok(());
+    }
     for i in 0..rb.len() {
-        same_record(&built_record(base, i), &ru[i], "built vs parsed-plain")?;
-        same_record(&ru[i], &rc[i], "parsed-plain vs parsed-compressed")?;
+        same_record_as(&built_record(base, i), &ru[i], "built vs parsed-plain", false)?;
+        same_record_as(&ru[i], &rc[i], "parsed-plain vs parsed-compressed", false)?;
     }
     case.extra_evals = 3 * rb.len() as u64;
     Ok(())
@@ -470,7 +503,7 @@ fn check_inst(i: &Inst, case: &mut Case) -> Result<(), Fail> {
 pub fn def() -> CheckDef {
     CheckDef {
         id: "C16",
-        rule: "proptest: (1) suffix-sharing packets (as C03) built through the public API, serialised plain and compressed and parsed back, giving three versions of every value (built from parts, borrowed from the plain buffer, borrowed from the compressed buffer); each packet/question/record/name/label/RDATA is cloned and converted with into_owned (packets: rebuilt from owned parts) and must be ==, observe equally, hash equally and serialise to identical bytes plain and compressed; the three versions of each record must be pairwise ==, hash-equal and byte-equal. (2) pairs of records differing only in TTL / cache-flush, in the letter case of one owner or RDATA-name label, or in class: whenever == holds (for the record, its name, its labels, its rdata) the hashes must agree and a HashSet must hold one entry; likewise for pairs of records of one type whose RDATA differs in one or a few fields taken from a second value or in trailing zero octets of an opaque field, and for one type named three ways (Empty(TYPE::from(c)), Empty(TYPE::Unknown(c)), NULL(c, empty)) for every code 0..=300. (2b) fifteen edge values (incl. an NSEC whose windows are held out of order, SVCB with keys 0 and 65535, OPT records differing only in their class member) (empty TXT built five ways, empty NULL, SVCB without params, NSEC without windows, OPT without options, Empty, root names): clone and owned copy equal, hash-equal, byte-equal, also after a further string is added. (3) InstanceInformation built 32 times from the same addresses/ports/attributes in rotated and reversed insertion orders (fresh HashSet seeds each time): equal, equal hashes, one HashSet slot. Non-trivial = a name with >= 2 labels or a variable-length field (instances: >= 2 distinct addresses or ports)",
+        rule: "proptest: (1) suffix-sharing packets (as C03) built through the public API, serialised plain and compressed and parsed back, giving three versions of every value (built from parts, borrowed from the plain buffer, borrowed from the compressed buffer); each packet/question/record/name/label/RDATA is cloned and converted with into_owned (packets: rebuilt from owned parts) and must be ==, observe equally, hash equally and serialise to identical bytes plain and compressed; the three versions of each record are compared pairwise: whenever two of them are == they must hash equally (equality across construction paths itself is C02's business). (2) pairs of records differing only in TTL / cache-flush, in the letter case of one owner or RDATA-name label, or in class: whenever == holds (for the record, its name, its labels, its rdata) the hashes must agree and a HashSet must hold one entry; likewise for pairs of records of one type whose RDATA differs in one or a few fields taken from a second value or in trailing zero octets of an opaque field, and for one type named three ways (Empty(TYPE::from(c)), Empty(TYPE::Unknown(c)), NULL(c, empty)) for every code 0..=300. (2b) fifteen edge values (incl. an NSEC whose windows are held out of order, SVCB with keys 0 and 65535, OPT records differing only in their class member) (empty TXT built five ways, empty NULL, SVCB without params, NSEC without windows, OPT without options, Empty, root names): clone and owned copy equal, hash-equal, byte-equal, also after a further string is added. (3) InstanceInformation built 32 times from the same addresses/ports/attributes in rotated and reversed insertion orders (fresh HashSet seeds each time): equal, equal hashes, one HashSet slot. Non-trivial = a name with >= 2 labels or a variable-length field (instances: >= 2 distinct addresses or ports)",
         assumptions: vec!["DefaultHasher::new() (fixed keys) for hash comparisons; std's per-HashSet RandomState only influences how quickly an order-dependent Hash is caught, never the verdict on a correct one"],
         sections: vec![
             Box::new(PropSection { name: "copies", rule: "clone / owned / built-vs-parsed", strategy: copies_strategy, cases: (60_000, 600_000), check: check_copies }),
